@@ -1,6 +1,7 @@
 import H3.Lemmas.Iso
 import H3.Lemmas.IsoLift
 import H3.Lemmas.IsoPolled
+import H3.Lemmas.IsoFault
 import H3.Props.C03
 /-! # C07 — faults confined to one request never harm the connection or other requests
 
@@ -93,7 +94,7 @@ inductive FaultStep (cfg : Cfg) : Req → StreamEv → Obs → Prop
   | tooBigHeadServer (r : Req) (enc : Bytes) (s' : FSt) (fs : Bytes) (w : H3.WriteBuf.WB) :
       cfg.role = .server → fsSrc.pollNext r.rx.src = (.frame (.headers enc), s') →
       cfg.hdr.head enc = .tooBig → cfg.resp431 = some fs → H3.WriteBuf.fromFrame (.headers fs) = some w →
-      r.snd.stopped = none → r.snd.fin = false → live cfg r .head →
+      r.snd.stopped = none → r.snd.fin = false → r.snd.writing = none → live cfg r .head →
       FaultStep cfg r (.call .head) (.ans .tooBig)
   /-- server: over the limit, and the 431 itself exceeds the client's limit ⇒ header-too-big -/
   | tooBigHeadServerRefused (r : Req) (enc : Bytes) (s' : FSt) :
@@ -120,6 +121,12 @@ inductive FaultStep (cfg : Cfg) : Req → StreamEv → Obs → Prop
   | finFirst (r : Req) (s' : FSt) :
       cfg.role = .server → fsSrc.pollNext r.rx.src = (.none, s') → live cfg r .head →
       FaultStep cfg r (.call .head) (.ans (.res (.errStream CODE_H3_REQUEST_INCOMPLETE)))
+  /-- client: the response stream ends before any HEADERS ⇒ stream error H3_MESSAGE_ERROR (the
+      response is missing: "an invalid sequence of HTTP messages", RFC 9114 §4.1.2; repaired by
+      6945722 — before, the connection error H3_FRAME_UNEXPECTED: finding D-07a) -/
+  | finFirstClient (r : Req) (s' : FSt) :
+      cfg.role = .client → fsSrc.pollNext r.rx.src = (.none, s') → live cfg r .head →
+      FaultStep cfg r (.call .head) (.ans (.res (.errStream CODE_H3_MESSAGE_ERROR)))
 
 /-- what a fault transition does, as a step of the request: the demanded answer, the cell as found -/
 theorem fault_step (cfg : Cfg) (r : Req) (ev : StreamEv) (o : Obs) (hf : FaultStep cfg r ev o)
@@ -165,22 +172,22 @@ theorem fault_step (cfg : Cfg) (r : Req) (ev : StreamEv) (o : Obs) (hf : FaultSt
         (by rw [hsrc]; exact fs_isEos_false s _ he) (by rw [hsrc]; exact fs_next_reset s c rest he hr)]
   | stopSend c call hs hfin hw hl =>
     rw [Req.step_live cfg cell r _ hl]
-    cases call <;> simp [isWrite] at hw <;> simp [stepSend, write_stopped _ _ c hs hfin]
+    cases call <;> simp [isWrite] at hw <;> simp [stepSend, write_stopped _ _ _ c hs hfin]
   | malformedHead enc s' hn hm hl =>
     rw [Req.step_live cfg cell r _ hl, stepHead_malformed cfg cell r enc s' hn hm]
   | malformedTrailers enc ht he hm hl =>
     rw [Req.step_live cfg cell r _ hl, stepTrailers_malformed cfg cell r enc ht he hm]
   | tooBigHeadClient enc s' hrole hn hm hl =>
     rw [Req.step_live cfg cell r _ hl, stepHead_tooBig_client cfg cell r enc s' hrole hn hm]
-  | tooBigHeadServer enc s' fs w hrole hn hm h431 hw hs hfin hl =>
+  | tooBigHeadServer enc s' fs w hrole hn hm h431 hw hs hfin hw0 hl =>
     rw [Req.step_live cfg cell r _ hl, stepHead_tooBig_server cfg cell r enc s' hrole hn hm]
-    simp [tooBigServer, h431, write_ok _ _ w hs hfin hw]
+    simp [tooBigServer, h431, write_ok _ _ w hs hfin hw0 hw]
   | tooBigHeadServerRefused enc s' hrole hn hm h431 hl =>
     rw [Req.step_live cfg cell r _ hl, stepHead_tooBig_server cfg cell r enc s' hrole hn hm]
     simp [tooBigServer, h431]
   | tooBigHeadServerStopped enc s' fs c hrole hn hm h431 hs hfin hl =>
     rw [Req.step_live cfg cell r _ hl, stepHead_tooBig_server cfg cell r enc s' hrole hn hm]
-    simp [tooBigServer, h431, write_stopped _ _ c hs hfin]
+    simp [tooBigServer, h431, write_stopped _ _ _ c hs hfin]
   | tooBigTrailers enc ht he hm hl =>
     rw [Req.step_live cfg cell r _ hl, stepTrailers_tooBig cfg cell r enc ht he hm]
   | malformedTrailersFin enc s' ht he hn hm hl =>
@@ -189,6 +196,8 @@ theorem fault_step (cfg : Cfg) (r : Req) (ev : StreamEv) (o : Obs) (hf : FaultSt
     rw [Req.step_live cfg cell r _ hl, stepTrailers_tooBig_fin cfg cell r enc s' ht he hn hm]
   | finFirst s' hrole hn hl =>
     rw [Req.step_live cfg cell r _ hl, stepHead_finFirst cfg cell r s' hrole hn]
+  | finFirstClient s' hrole hn hl =>
+    rw [Req.step_live cfg cell r _ hl, stepHead_finFirst_client cfg cell r s' hrole hn]
 
 theorem fault_not_conn (cfg : Cfg) (r : Req) (ev : StreamEv) (o : Obs) (hf : FaultStep cfg r ev o) :
     o.isConn = false := by
@@ -223,10 +232,12 @@ theorem C07_stream_fault_is_local (cfg : Cfg) (c : Conn) (i : Nat) (ev : StreamE
 
 /-- **What h3 does on the faulted stream itself** (as the code does): a malformed head ⇒
     STOP_SENDING(H3_MESSAGE_ERROR), and on a server also RESET_STREAM(H3_MESSAGE_ERROR) and the
-    resolver is gone; FIN before HEADERS ⇒ RESET_STREAM(H3_REQUEST_INCOMPLETE); an oversized response
+    resolver is gone; FIN before HEADERS ⇒ on a server RESET_STREAM(H3_REQUEST_INCOMPLETE), on a client
+    nothing is sent (the receive side is over) and the handle stays; an oversized response
     ⇒ STOP_SENDING(H3_REQUEST_CANCELLED); an oversized request ⇒ the 431 HEADERS frame appended to
     what was written on THAT stream, no reset; a RESET met by a call, a STOP_SENDING met by a send
-    call ⇒ nothing is sent, nothing written (`first old c` = `c` unless one was sent before). -/
+    call ⇒ nothing is sent, nothing written, a write that was waiting for credit is dropped (`first old c` =
+    `c` unless one was sent before). -/
 theorem C07_fault_reaction (cfg : Cfg) (cell : Option Nat) (r : Req) :
     (∀ enc s', fsSrc.pollNext r.rx.src = (.frame (.headers enc), s') → cfg.hdr.head enc = .malformed →
       live cfg r .head →
@@ -238,6 +249,9 @@ theorem C07_fault_reaction (cfg : Cfg) (cell : Option Nat) (r : Req) :
       let r' := (Req.step cfg cell r (.call .head)).1
       r'.rx.env.rst = first r.rx.env.rst CODE_H3_REQUEST_INCOMPLETE ∧ r'.rx.env.stop = r.rx.env.stop ∧
       r'.snd = r.snd ∧ r'.gone = true) ∧
+    (∀ s', cfg.role = .client → fsSrc.pollNext r.rx.src = (.none, s') → live cfg r .head →
+      let r' := (Req.step cfg cell r (.call .head)).1
+      r'.rx.env.rst = r.rx.env.rst ∧ r'.rx.env.stop = r.rx.env.stop ∧ r'.snd = r.snd ∧ r'.gone = false) ∧
     (∀ enc s', cfg.role = .client → fsSrc.pollNext r.rx.src = (.frame (.headers enc), s') →
       cfg.hdr.head enc = .tooBig → live cfg r .head →
       let r' := (Req.step cfg cell r (.call .head)).1
@@ -245,7 +259,7 @@ theorem C07_fault_reaction (cfg : Cfg) (cell : Option Nat) (r : Req) :
       r'.snd = r.snd) ∧
     (∀ enc s' fs w, cfg.role = .server → fsSrc.pollNext r.rx.src = (.frame (.headers enc), s') →
       cfg.hdr.head enc = .tooBig → cfg.resp431 = some fs → H3.WriteBuf.fromFrame (.headers fs) = some w →
-      r.snd.stopped = none → r.snd.fin = false → live cfg r .head →
+      r.snd.stopped = none → r.snd.fin = false → r.snd.writing = none → live cfg r .head →
       let r' := (Req.step cfg cell r (.call .head)).1
       r'.snd.tx = r.snd.tx ++ w.view ∧ r'.rx.env.rst = r.rx.env.rst ∧ r'.rx.env.stop = r.rx.env.stop ∧
       r'.gone = true) ∧
@@ -253,20 +267,23 @@ theorem C07_fault_reaction (cfg : Cfg) (cell : Option Nat) (r : Req) :
       let r' := (Req.step cfg cell r (.call .data)).1
       r'.rx.env.rst = r.rx.env.rst ∧ r'.rx.env.stop = r.rx.env.stop ∧ r'.snd = r.snd) ∧
     (∀ c call, r.snd.stopped = some c → r.snd.fin = false → isWrite call = true → live cfg r call →
-      (Req.step cfg cell r (.call call)).1 = r) := by
-  refine ⟨?_, ?_, ?_, ?_, ?_, ?_⟩
+      (Req.step cfg cell r (.call call)).1 = { r with snd := { r.snd with writing := none } }) := by
+  refine ⟨?_, ?_, ?_, ?_, ?_, ?_, ?_⟩
   · intro enc s' hn hm hl
     rw [Req.step_live cfg cell r _ hl, stepHead_malformed cfg cell r enc s' hn hm]
     exact ⟨rfl, rfl, rfl, rfl⟩
   · intro s' hrole hn hl
     rw [Req.step_live cfg cell r _ hl, stepHead_finFirst cfg cell r s' hrole hn]
     exact ⟨rfl, rfl, rfl, rfl⟩
+  · intro s' hrole hn hl
+    rw [Req.step_live cfg cell r _ hl, stepHead_finFirst_client cfg cell r s' hrole hn]
+    exact ⟨rfl, rfl, rfl, rfl⟩
   · intro enc s' hrole hn hm hl
     rw [Req.step_live cfg cell r _ hl, stepHead_tooBig_client cfg cell r enc s' hrole hn hm]
     exact ⟨rfl, rfl, rfl⟩
-  · intro enc s' fs w hrole hn hm h431 hw hs hfin hl
+  · intro enc s' fs w hrole hn hm h431 hw hs hfin hw0 hl
     rw [Req.step_live cfg cell r _ hl, stepHead_tooBig_server cfg cell r enc s' hrole hn hm]
-    simp [tooBigServer, h431, write_ok _ _ w hs hfin hw, unload]
+    simp [tooBigServer, h431, write_ok _ _ w hs hfin hw0 hw, unload]
   · intro s c rest hsrc he hl
     rw [Req.step_live cfg cell r _ hl]
     by_cases hr : s.remaining = 0
@@ -278,7 +295,7 @@ theorem C07_fault_reaction (cfg : Cfg) (cell : Option Nat) (r : Req) :
       exact ⟨rfl, rfl, rfl⟩
   · intro c call hs hfin hw hl
     rw [Req.step_live cfg cell r _ hl]
-    cases call <;> simp [isWrite] at hw <;> simp [stepSend, write_stopped _ _ c hs hfin]
+    cases call <;> simp [isWrite] at hw <;> simp [stepSend, write_stopped _ _ _ c hs hfin]
 
 /-- **Only a connection-level answer writes the cell.** Whatever the state, whatever the event:
     if the step on stream `i` does not tell its application `StreamError::ConnectionError`, the
@@ -382,6 +399,111 @@ theorem C07_connection_stays_open (cfg : Cfg) (hist : List HEv) (hs : StreamScop
   obtain ⟨h1, h2, _⟩ := run_decomposes cfg pre {} rfl rfl (quietHist_prefix cfg {} pre suf hq)
   exact ⟨h1, h2⟩
 
+/-! ### whole histories of the property's quantifier are `StreamScoped`
+
+`StreamScoped` is a statement about the model's own run.  The property quantifies over INPUTS: what the
+peer does to each request and which calls the application makes.  `DocStream cfg evs` says of the events
+`evs` of one request stream, without looking at any answer but to know where the documented call
+pattern stands:
+
+* transport (`DelivR`): non-empty chunks carrying a prefix of the bytes `w` of a validly framed message
+  — `Wire w T`: the reference automaton of C02 reads `w` as complete frames, tokens `T = msgToks h ds tr`
+  (`U* H (U|D)* (H U*)?`: head block `h`, DATA payloads `ds`, trailer block `tr`) or `T = []` (nothing
+  but frames of unknown type: the stream is abandoned before its headers); then nothing yet, or FIN —
+  only with all of `w` delivered, i.e. on the last frame boundary of the message —, or RESET with ANY
+  code after ANY prefix (any byte offset); STOP_SENDING with any code and credit grants anywhere;
+* header oracle: for the head block and for the trailer block any answer but a QPACK decoding failure —
+  well-formed, validly encoded but malformed, over the size limit (positional: the head block is judged
+  as a head, the trailer block as trailers);
+* calls (`obeys`, reading R-07): `resolve_request` / `recv_response` polled until it answers, then
+  `recv_data` (call by call, or as the body task) until it answers something else than data, then after
+  a clean end `recv_trailers`; every call polled again while it answers `Pending`; NO receive call after
+  one has answered an error — the documented pattern ends there; `send_response` / `send_data` /
+  `send_trailers` / `finish` at any time, before and after any fault.
+
+This covers every fault class of the property: RESET (any code, any offset, before / between / inside /
+after the calls), STOP_SENDING (any code, any time), malformed or oversized head or trailers, FIN before
+HEADERS (bare, or behind unknown frames), and the healthy stream; at most one receive-side fault can
+manifest per stream because the pattern ends with the first error (a STOP_SENDING may come on top). -/
+
+section Documented
+open H3.ReqRecv
+
+/-- a request stream of the property's quantifier: a statement about its input -/
+def DocStream (cfg : Cfg) (evs : List StreamEv) : Prop :=
+  ∃ (w : FS.Bytes) (T : List RefTok) (h : ReqRecv.Bytes) (ds : List ReqRecv.Bytes) (tr : Option ReqRecv.Bytes),
+    Wire w T ∧ (T = [] ∨ T = msgToks h ds tr) ∧
+    cfg.hdr.head h ≠ .qpack ∧ (∀ t, tr = some t → cfg.hdr.trailer t ≠ .qpack) ∧
+    DelivR w (fsScript (peersOf evs)) ∧ obeys cfg .head none {} evs = true
+
+/-- a stream carrying (a prefix of) a message with a head -/
+theorem docStream_of_message (cfg : Cfg) (evs : List StreamEv) (w : FS.Bytes) (h : ReqRecv.Bytes)
+    (ds : List ReqRecv.Bytes) (tr : Option ReqRecv.Bytes)
+    (hrun : H3.FS.run H3.FS.frameDec (.hdr []) w = (.hdr [], msgToks h ds tr))
+    (hlen : ∀ d ∈ ds, d.length < H3.FS.USIZE_MAX)
+    (hh : cfg.hdr.head h ≠ .qpack) (htr : ∀ t, tr = some t → cfg.hdr.trailer t ≠ .qpack)
+    (hdel : DelivR w (fsScript (peersOf evs))) (hob : obeys cfg .head none {} evs = true) : DocStream cfg evs :=
+  ⟨w, msgToks h ds tr, h, ds, tr, ⟨hrun, noRaw_of_msgToks w _ h ds tr hrun hlen⟩, Or.inr rfl, hh, htr, hdel, hob⟩
+
+/-- a stream carrying frames of unknown type only (abandoned before its headers) -/
+theorem docStream_of_unknown (cfg : Cfg) (evs : List StreamEv) (w : FS.Bytes)
+    (hrun : H3.FS.run H3.FS.frameDec (.hdr []) w = (.hdr [], []))
+    (hdel : DelivR w (fsScript (peersOf evs))) (hob : obeys cfg .head none {} evs = true)
+    (hh : cfg.hdr.head [] ≠ .qpack) : DocStream cfg evs :=
+  ⟨w, [], [], [], none, ⟨hrun, fun f hf => by rw [hrun] at hf; cases hf⟩, Or.inl rfl, hh,
+    (fun t ht => by cases ht), hdel, hob⟩
+
+/-- **C07, one stream of the quantifier.**  Whatever the peer does to the stream within the property's
+    fault classes, at whatever point, and whenever the application's documented calls are polled: no
+    call on the stream ever answers a connection-level error — every fault is reported as a
+    stream-level error (`C07_stream_fault_is_local` names the code) or not at all. -/
+theorem C07_documented_stream_never_told_connection_error (cfg : Cfg) (evs : List StreamEv)
+    (hd : DocStream cfg evs) : ∀ o ∈ (Req.run cfg none {} evs).2.2, o.isConn = false := by
+  obtain ⟨w, T, h, ds, tr, hw, hT, hh, htr, hdel, hob⟩ := hd
+  have hfirst : ∀ f, [FS.Tok.frame f] <+: T → f = .headers h := by
+    intro f hp
+    rcases hT with rfl | rfl
+    · simpa using hp.length_le
+    · exact first_frame_is_head hp
+  have hbody : T ≠ [] → T = msgToks h ds tr := by
+    intro hne
+    rcases hT with rfl | rfl
+    · exact absurd rfl hne
+    · rfl
+  exact robust_run hw hfirst hbody cfg hh htr evs .head [] {} (rinvR_init w T h ds tr)
+    (by rw [List.nil_append]; exact hdel) hob
+
+/-- **C07, whole histories.**  A history — any number of streams, any length, any interleaving of all
+    tasks, deliveries and driver polls — every stream of which is a stream of the property's quantifier
+    (`DocStream`: a hypothesis about the input only) IS `StreamScoped`. -/
+theorem C07_documented_histories_are_stream_scoped (cfg : Cfg) (hist : List HEv)
+    (hd : ∀ i ∈ sidsOf hist, DocStream cfg (proj i hist)) : StreamScoped cfg hist :=
+  fun i hi => C07_documented_stream_never_told_connection_error cfg (proj i hist) (hd i hi)
+
+/-- **C07, unconditionally on the property's quantifier: the connection stays open.**  After every prefix
+    of such a history the error cell is empty and `close` has never been called. -/
+theorem C07_connection_stays_open_documented (cfg : Cfg) (hist : List HEv)
+    (hd : ∀ i ∈ sidsOf hist, DocStream cfg (proj i hist)) (pre suf : List HEv) (hsplit : hist = pre ++ suf) :
+    (run cfg {} pre).1.cell = none ∧ (run cfg {} pre).1.closed = [] :=
+  C07_connection_stays_open cfg hist (C07_documented_histories_are_stream_scoped cfg hist hd) pre suf hsplit
+
+/-- **C07, unconditionally on the property's quantifier: the neighbours are unaffected.**  What such a
+    history looks like from any stream `j` is the run of `j`'s own events alone; it is the same with any
+    set of other streams (the faulted ones, say) removed from the history; and the same in any other such
+    history with the same events on `j`. -/
+theorem C07_neighbours_unaffected_documented (cfg : Cfg) (hist : List HEv)
+    (hd : ∀ i ∈ sidsOf hist, DocStream cfg (proj i hist)) (j : Nat) :
+    view j (run cfg {} hist) =
+      ((Req.run cfg none {} (proj j hist)).1, (Req.run cfg none {} (proj j hist)).2.2) ∧
+    (∀ F : Nat → Bool, F j = false → view j (run cfg {} hist) = view j (run cfg {} (without F hist))) ∧
+    (∀ hist', (∀ i ∈ sidsOf hist', DocStream cfg (proj i hist')) → proj j hist' = proj j hist →
+      view j (run cfg {} hist') = view j (run cfg {} hist)) := by
+  have h := C07_neighbours_unaffected cfg hist (C07_documented_histories_are_stream_scoped cfg hist hd) j
+  exact ⟨h.1, h.2.2.1, fun hist' hd' hp =>
+    h.2.2.2 hist' (C07_documented_histories_are_stream_scoped cfg hist' hd') hp⟩
+
+end Documented
+
 /-! ### a healthy stream delivers exactly its own bytes -/
 
 section Healthy
@@ -448,8 +570,9 @@ theorem healthy_of_outcome (cfg : Cfg) (hist : List HEv) (hs : StreamScoped cfg 
     Hypotheses that remain (none about the frame layer: `FrameSim` is discharged by
     `C03_frame_layer_simulation`/`lift_exists` for every script): chunks are non-empty (`ScriptOK`,
     a QUIC read never returns zero bytes); no DATA frame announces `usize::MAX` bytes (`NoRaw`; a
-    varint cannot); the header oracle accepts the two blocks within the limit (as C03's `HdrOk`: in
-    either position); the loop bound of the `body` call is at least the model's own `fsFuel`.
+    varint cannot); the header oracle accepts the head block as a head and the trailer block as
+    trailers, within the limit (positional, as C03's `HdrsOk`: nothing is asked of a block in the
+    other position); the loop bound of the `body` call is at least the model's own `fsFuel`.
     Still inherited from C03's `documented`: within stream `j` itself the deliveries precede the
     polls — `C07_healthy_stream_delivers_polled` removes that. -/
 theorem C07_healthy_stream_delivers (cfg : Cfg) (hist : List HEv) (hs : StreamScoped cfg hist) (j : Nat)
@@ -458,7 +581,7 @@ theorem C07_healthy_stream_delivers (cfg : Cfg) (hist : List HEv) (hs : StreamSc
     (hne : ∀ b ∈ cs, b ≠ [])
     (hmsg : H3.FS.run H3.FS.frameDec (.hdr []) cs.flatten = (.hdr [], msgToks h ds tr))
     (hlen : ∀ d ∈ ds, d.length < H3.FS.USIZE_MAX)
-    (hH : ∀ b, b = h ∨ tr = some b → cfg.hdr.head b = .ok ∧ cfg.hdr.trailer b = .ok)
+    (hh : cfg.hdr.head h = .ok) (hT : ∀ t, tr = some t → cfg.hdr.trailer t = .ok)
     (hfuel : fsFuel ({}, cs.map H3.FS.Ev.chunk ++ [H3.FS.Ev.fin]) ≤ fuel) :
     ∃ rs : List Res,
       obsOf j (run cfg {} hist).2 =
@@ -473,17 +596,16 @@ theorem C07_healthy_stream_delivers (cfg : Cfg) (hist : List HEv) (hs : StreamSc
     (onlyChunks_map cs) (scriptOK_chunks_fin cs hne)
     (by rw [hb]; exact noRaw_of_msgToks _ _ h ds tr hmsg hlen)
     (by
-      intro b hbm
-      rw [hb, hmsg] at hbm
-      obtain ⟨h1, h2⟩ := hH b (headers_mem_msgToks h ds tr b hbm)
-      simp [Hdr.base, h1, h2, HClass.base])
+      rw [hb, hmsg, kindsOf_msgToks]
+      exact hdrsOkK_msgKinds _ h ds tr (by simp [Hdr.base, hh, HClass.base])
+        (fun t ht => by simp [Hdr.base, hT t ht, HClass.base]))
     (by rw [hb, hmsg]) hfuel
   rw [hb, hmsg, kindsOf_msgToks, spec_msgKinds] at hacc
   simp only [H3.Spec.ReqSeq.Expect.accepts, List.mem_singleton] at hacc
   rw [← fsScript_chunks_fin] at hacc
   have hres := healthy_of_outcome cfg hist hs j (cs.map Peer.chunk ++ [Peer.fin]) fuel hj h ds.flatten tr hacc
-    (by rw [(hH h (Or.inl rfl)).1]; simp)
-    (by intro t ht; rw [(hH t (Or.inr ht)).2]; simp)
+    (by rw [hh]; simp)
+    (by intro t ht; rw [hT t ht]; simp)
   simpa using hres
 
 /-- **C07 composed with C03** (`_partial`: kept for the record; superseded by
@@ -520,9 +642,12 @@ theorem C07_healthy_stream_delivers_partial (cfg : Cfg) (hist : List HEv) (hs : 
       ((run cfg {} hist).1.get j).rx.env.rst = none ∧
       (run cfg {} hist).1.cell = none ∧ (run cfg {} hist).1.closed = [] := by
   -- C03: the documented pattern over the chunks is the one over the frames, which delivers
-  have hlift := (C03_lifted_to_chunks fsSrc R sim cfg.role cfg.hdr.base ({}, fsScript ps) toks .fin fuel hR hwf hfuel).1
+  have hwf1 : ∀ tok ∈ toks, TokWF tok := fun t ht => (hwf t ht).1
+  have hlift := (C03_lifted_to_chunks fsSrc R sim cfg.role cfg.hdr.base ({}, fsScript ps) toks .fin fuel hR hwf1
+    (hdrsOk_of_hdrOk _ _ (fun t ht => (hwf t ht).2)) hfuel).1
   have hdel := C03_valid_message_delivered cfg.role cfg.hdr.base pre mid post h tr fuel hpre hmid hpost toks htoks
-    hwf hfuel
+    hwf1 (hwf (.headers h) (by rw [htoks]; simp)).2.1
+    (fun t ht => (hwf (.headers t) (by rw [htoks, ht]; simp)).2.2) hfuel
   rw [← hlift] at hdel
   have hdel' : observe (documented cfg.role fsSrc cfg.hdr.base fuel { src := ({}, fsScript ps) }) =
       { calls := [.head h, .body (payloads mid), .bodyEnd, trObs tr]
@@ -864,7 +989,7 @@ example : FaultStep srv (c₂.get 12) (.call .head) (.ans (.res (.errStream 269)
   .finFirst _ (fsSrc.pollNext (c₂.get 12).rx.src).2 rfl (by decide +kernel) (by decide +kernel)
 example : FaultStep srv (c₂.get 16) (.call .head) (.ans .tooBig) :=
   .tooBigHeadServer _ [0xff] (fsSrc.pollNext (c₂.get 16).rx.src).2 _ _ rfl (by decide +kernel) (by decide +kernel)
-    rfl rfl (by decide +kernel) (by decide +kernel) (by decide +kernel)
+    rfl rfl (by decide +kernel) (by decide +kernel) (by decide +kernel) (by decide +kernel)
 example : (run srv c₂ [on 12 (.call .head), on 16 (.call .head), .drive]).2 =
     [(12, .ans (.res (.errStream 269))), (16, .ans .tooBig)] := by decide +kernel
 example : ((run srv c₂ [on 12 (.call .head), on 16 (.call .head), .drive]).1.get 16).snd.tx =
@@ -886,6 +1011,20 @@ example : (run cli {} histC).2 =
 example : ((run cli {} histC).1.get 0).rx.env.stop = some 268 := by decide +kernel
 example : FaultStep cli ((run cli {} (histC.take 4)).1.get 4) (.call (.sendData [1, 2, 3])) (.ans (.res (.errReset 9))) :=
   .stopSend _ 9 _ (by decide +kernel) (by decide +kernel) rfl (by decide +kernel)
+
+/-- client: the response stream of request 0 ends before any HEADERS while request 4 is answered -/
+def histF : List HEv :=
+  [ on 0 (.call (.sendHead [0x00, 0x00, 0xd1])), on 4 (.call (.sendHead [0x00, 0x00, 0xd1])), on 0 (.peer .fin),
+    chunk 4 [0x01, 0x01, 0xaa, 0x00, 0x01, 0x07], on 0 (.call .head), .drive, on 4 (.peer .fin), on 4 (.call .head),
+    on 4 (.call (.body 9)), .drive ]
+example : FaultStep cli ((run cli {} (histF.take 4)).1.get 0) (.call .head) (.ans (.res (.errStream 270))) :=
+  .finFirstClient _ (fsSrc.pollNext ((run cli {} (histF.take 4)).1.get 0).rx.src).2 rfl (by decide +kernel)
+    (by decide +kernel)
+example : StreamScoped cli histF := by decide +kernel
+example : (run cli {} histF).2 =
+    [(0, .ok), (4, .ok), (0, .quiet), (4, .quiet), (0, .ans (.res (.errStream 270))), (4, .quiet),
+     (4, .ans (.res (.head [0xaa]))), (4, .body [.data [7], .end_] (some (.res .noTrailers)))] := by decide +kernel
+example : ((run cli {} histF).1.get 0).rx.env = {} ∧ (run cli {} histF).1.closed = [] := by decide +kernel
 
 /-! the contrast: a connection-level protocol violation (DATA before HEADERS) is NOT stream-scoped:
     the cell is written and the driver closes the connection with H3_FRAME_UNEXPECTED (the
@@ -937,11 +1076,7 @@ example : ∃ rs : List Res,
     (run srv {} (hist₃.take 20)).1.cell = none ∧ (run srv {} (hist₃.take 20)).1.closed = [] :=
   C07_healthy_stream_delivers srv (hist₃.take 20) (by decide +kernel) 0 cs₀ 20 [0xaa, 0xbb] [[], [0xc1, 0xc2]] none
     (by decide +kernel) (by decide) (by decide +kernel) (by decide)
-    (by
-      intro b hb
-      rcases hb with rfl | hb
-      · exact ⟨by decide, by decide⟩
-      · cases hb)
+    (by decide) (by intro t ht; cases ht)
     (by decide)
 
 /-- the same bytes cut per byte on stream 0, with trailers `[0xab]` appended, neighbours as before -/
@@ -961,13 +1096,7 @@ example : ∃ rs : List Res,
     [[0x01], [0x02], [0xaa], [0xbb], [0x00], [0x02], [0xc1], [0xc2], [0x01], [0x01], [0xab]] 40 [0xaa, 0xbb]
     [[0xc1, 0xc2]] (some [0xab])
     (by decide +kernel) (by decide) (by decide +kernel) (by decide)
-    (by
-      intro b hb
-      rcases hb with rfl | hb
-      · exact ⟨by decide, by decide⟩
-      · simp only [Option.some.injEq] at hb
-        subst hb
-        exact ⟨by decide, by decide⟩)
+    (by decide) (by intro t ht; simp only [Option.some.injEq] at ht; subst ht; decide)
     (by decide)
 example : obsOf 4 (run srv {} hist₄).2 =
     [.quiet, .ans (.res (.head [0xaa, 0xbb])), .quiet, .body [.errReset 7] none] := by decide +kernel
@@ -1059,6 +1188,87 @@ example :
     [0xaa, 0xbb] [[], [0xc1, 0xc2]] none (by decide) (by decide +kernel) (by decide +kernel) (by decide +kernel)
     (by decide +kernel) (by decide) (by decide) (by decide +kernel) (by decide)
     (by decide) (by intro t ht; cases ht) (by decide) (by decide)
+
+/-! the whole-history theorems apply to `hist₅` with NO hypothesis about the run: each of its three streams
+    is a stream of the quantifier — stream 0 a valid message polled between its deliveries, stream 4 RESET
+    with code 7 inside its DATA payload (`w` = what was delivered plus the four payload bytes that never
+    came), stream 8 a validly encoded malformed head -/
+theorem doc₅_0 : DocStream srv (proj 0 hist₅) :=
+  docStream_of_message srv _ cs₅.flatten [0xaa, 0xbb] [[], [0xc1, 0xc2]] none (by decide +kernel) (by decide) (by decide)
+    (by intro t ht; cases ht) (Or.inl ⟨cs₅, by decide, Or.inr ⟨by decide +kernel, rfl⟩⟩) (by decide +kernel)
+
+theorem doc₅_4 : DocStream srv (proj 4 hist₅) :=
+  docStream_of_message srv _ [0x01, 0x02, 0xaa, 0xbb, 0x00, 0x05, 0x32, 0, 0, 0, 0] [0xaa, 0xbb] [[0x32, 0, 0, 0, 0]] none
+    (by decide +kernel) (by decide) (by decide) (by intro t ht; cases ht)
+    (Or.inr ⟨7, [[0x01, 0x02, 0xaa, 0xbb, 0x00, 0x05, 0x32]], by decide, by decide +kernel, by decide +kernel⟩)
+    (by decide +kernel)
+
+theorem doc₅_8 : DocStream srv (proj 8 hist₅) :=
+  docStream_of_message srv _ [0x01, 0x01, 0xee] [0xee] [] none (by decide +kernel) (by decide) (by decide)
+    (by intro t ht; cases ht) (Or.inl ⟨[[0x01, 0x01], [0xee]], by decide, Or.inr ⟨by decide +kernel, rfl⟩⟩)
+    (by decide +kernel)
+
+theorem hist₅_documented : ∀ i ∈ sidsOf hist₅, DocStream srv (proj i hist₅) := by
+  intro i hi
+  have h3 : i = 0 ∨ i = 4 ∨ i = 8 := by
+    simp only [hist₅, sidsOf, on, chunk, List.mem_cons, List.not_mem_nil, or_false] at hi
+    omega
+  rcases h3 with rfl | rfl | rfl
+  · exact doc₅_0
+  · exact doc₅_4
+  · exact doc₅_8
+
+example : ∀ o ∈ (Req.run srv none {} (proj 4 hist₅)).2.2, o.isConn = false :=
+  C07_documented_stream_never_told_connection_error srv _ doc₅_4
+example : StreamScoped srv hist₅ := C07_documented_histories_are_stream_scoped srv hist₅ hist₅_documented
+example : (run srv {} (hist₅.take 19)).1.cell = none ∧ (run srv {} (hist₅.take 19)).1.closed = [] :=
+  C07_connection_stays_open_documented srv hist₅ hist₅_documented (hist₅.take 19) (hist₅.drop 19)
+    (List.take_append_drop 19 hist₅).symm
+example : view 0 (run srv {} hist₅) = view 0 (run srv {} (without (fun s => s == 4 || s == 8) hist₅)) :=
+  (C07_neighbours_unaffected_documented srv hist₅ hist₅_documented 0).2.1 _ rfl
+
+/-! R-07 in the hypothesis: `hist₃` is `StreamScoped` too, but its stream 8 is not a documented stream —
+    its application calls `recv_data` after `resolve_request` has failed (`on 8 (.call .data)`) -/
+example : obeys srv .head none {} (proj 8 hist₃) = false := by decide +kernel
+example : obeys srv .head none {} (proj 8 (hist₃.take 16)) = true := by decide +kernel
+
+/-- a client stream under write back-pressure (4 bytes of credit): the request head waits for credit and
+    is polled again after the grant; the response is read call by call (`recv_data`, `recv_trailers`); the
+    peer asks to stop sending and the next `send_data` reports it; a response stream that ends before
+    any HEADERS (stream 4, `T = []`) -/
+def cliW : Cfg := { role := .client, hdr := hdr₃, wc := some 4 }
+def histG : List HEv :=
+  [ on 0 (.call (.sendHead [0x00, 0x00, 0xd1])), on 4 (.call (.sendHead [0x00, 0x00, 0xd1])), on 0 (.peer (.grant 9)),
+    on 0 (.call (.sendHead [0x00, 0x00, 0xd1])), chunk 0 [0x01, 0x01, 0xaa, 0x00], on 0 (.call .head), on 0 (.call .data),
+    on 4 (.peer (.grant 1)), on 4 (.call (.sendHead [0x00, 0x00, 0xd1])), chunk 4 [0x21, 0x02, 0x07], on 4 (.call .head),
+    chunk 0 [0x02, 0xc1], on 0 (.call .data), on 0 (.call .data), chunk 0 [0xc2], on 0 (.peer (.stop 9)),
+    on 0 (.call .data), chunk 4 [0x08], on 4 (.peer .fin), on 0 (.peer .fin), on 0 (.call .data), on 4 (.call .head),
+    on 0 (.call .trailers), on 0 (.call (.sendData [1])), .drive ]
+example : (run cliW {} histG).2 =
+    [(0, .ans (.res .pending)), (4, .ans (.res .pending)), (0, .quiet), (0, .ok), (0, .quiet), (0, .ans (.res (.head [0xaa]))),
+     (0, .ans (.res .pending)), (4, .quiet), (4, .ok), (4, .quiet), (4, .ans (.res .pending)), (0, .quiet),
+     (0, .ans (.res (.data [0xc1]))), (0, .ans (.res .pending)), (0, .quiet), (0, .quiet), (0, .ans (.res (.data [0xc2]))),
+     (4, .quiet), (4, .quiet), (0, .quiet), (0, .ans (.res .end_)), (4, .ans (.res (.errStream 270))),
+     (0, .ans (.res .noTrailers)), (0, .ans (.res (.errReset 9)))] := by decide +kernel
+example : ((run cliW {} (histG.take 2)).1.get 0).snd =
+    { tx := [0x01, 0x03, 0x00, 0x00], granted := 0, writing := some [0xd1] } := by decide +kernel
+theorem docG_0 : DocStream cliW (proj 0 histG) :=
+  docStream_of_message cliW _ [0x01, 0x01, 0xaa, 0x00, 0x02, 0xc1, 0xc2] [0xaa] [[0xc1, 0xc2]] none (by decide +kernel)
+    (by decide) (by decide) (by intro t ht; cases ht)
+    (Or.inl ⟨[[0x01, 0x01, 0xaa, 0x00], [0x02, 0xc1], [0xc2]], by decide, Or.inr ⟨by decide +kernel, rfl⟩⟩)
+    (by decide +kernel)
+theorem docG_4 : DocStream cliW (proj 4 histG) :=
+  docStream_of_unknown cliW _ [0x21, 0x02, 0x07, 0x08] (by decide +kernel)
+    (Or.inl ⟨[[0x21, 0x02, 0x07], [0x08]], by decide, Or.inr ⟨by decide +kernel, rfl⟩⟩) (by decide +kernel) (by decide)
+example : StreamScoped cliW histG :=
+  C07_documented_histories_are_stream_scoped cliW histG (by
+    intro i hi
+    have h2 : i = 0 ∨ i = 4 := by
+      simp only [histG, sidsOf, on, chunk, List.mem_cons, List.not_mem_nil, or_false] at hi
+      omega
+    rcases h2 with rfl | rfl
+    · exact docG_0
+    · exact docG_4)
 
 -- trailers, per-byte cutting, a poll after every byte; the block is remembered while `recv_trailers` waits for FIN
 def hist₆ : List HEv :=
